@@ -296,7 +296,7 @@ example : AfterNotice (stateAfter (pragmaOnce true) (pragmaOnce true).reset 1
 open SymbolVerif.Lint.Deps in
 /-- `process_rules` computes the transitive closure of the expanded rules: every name that has a rule
     gets an entry, and the entry holds exactly what the name reaches in the rule graph. -/
-theorem deps_closure_spec (edges : List Edge) (final : List (Deps.Str × List Deps.Str))
+theorem deps_closure_spec (edges : List Edge) (final : List (List Char × List (List Char)))
     (h : processRules edges = some final) :
     (∀ k, k ∈ keysOf edges → ∃ R, final.lookup k = some R) ∧
     (∀ k R, final.lookup k = some R → ∀ d, d ∈ R ↔ Reach edges k d) := by
@@ -311,7 +311,7 @@ open SymbolVerif.Lint.Deps in
 /-- the decision of `DepsChecker.match`, made explicit: an include is accepted iff some closed rule has a
     source pattern matching the WHOLE source directory and a destination pattern matching the WHOLE
     (local-include-fixed) destination directory -/
-theorem allowed_iff (re : Deps.Str → RE) (rules : List (Deps.Str × List Deps.Str)) (src dest : Deps.Str) :
+theorem allowed_iff (re : List Char → RE) (rules : List (List Char × List (List Char))) (src dest : List Char) :
     allowed re rules src dest = true ↔
       ∃ p ds, (p, ds) ∈ rules ∧ fullMatch (re p) src = true ∧ ∃ q ∈ ds, fullMatch (re q) (fixedDest src dest) = true := by
   unfold allowed
@@ -324,18 +324,13 @@ theorem allowed_iff (re : Deps.Str → RE) (rules : List (Deps.Str × List Deps.
 
 open SymbolVerif.Lint.Deps in
 /-- a deps.config name without `.` compiles to a pattern that matches exactly the name -/
-theorem compileName_literal : ∀ (name : Deps.Str), '.' ∉ name → literalOf (compileName name) = some name
+theorem compileName_literal : ∀ (name : List Char), '.' ∉ name → literalOf (compileName name) = some name
   | [], _ => rfl
   | c :: rest, h => by
     have hc : c ≠ '.' := fun e => h (by simp [e])
     have hr : '.' ∉ rest := fun e => h (List.mem_cons_of_mem _ e)
     have ih := compileName_literal rest hr
-    have : compileName (c :: rest) = .seq (.lit c) (compileName rest) := by
-      unfold compileName
-      split
-      · next heq => cases heq; exact absurd rfl hc
-      · next heq => cases heq; exact absurd rfl hc
-      · next heq => cases heq; rfl
+    have : compileName (c :: rest) = .seq (.lit c) (compileName rest) := compileName_cons c rest hc
     rw [this]
     simp [literalOf, ih]
 
@@ -343,7 +338,7 @@ open SymbolVerif.Lint.Deps in
 /-- anchoring: a source directory that merely EXTENDS the source of a rule (by a name suffix such as
     `catapult/io` → `catapult/ionet`, or by a path component) gets nothing from that rule: a rule source
     without wildcard matches the whole source string or not at all. -/
-theorem allowed_needs_full_source_match (name ext : Deps.Str) (hdot : '.' ∉ name)
+theorem allowed_needs_full_source_match (name ext : List Char) (hdot : '.' ∉ name)
     (h : fullMatch (compileName name) (name ++ ext) = true) : ext = [] := by
   have hlit := compileName_literal name hdot
   have hm := (fullMatch_iff _ (literal_noCapture _ _ hlit) _).mp h
@@ -353,7 +348,7 @@ theorem allowed_needs_full_source_match (name ext : Deps.Str) (hdot : '.' ∉ na
 open SymbolVerif.Lint.Deps in
 /-- ... so the verdict for an extended source can only come from OTHER rules: if every rule whose source
     matches `name ++ ext` is the rule `name` itself, nothing is allowed. -/
-theorem extended_source_gets_nothing_from (name ext dest : Deps.Str) (ds : List Deps.Str) (hdot : '.' ∉ name)
+theorem extended_source_gets_nothing_from (name ext dest : List Char) (ds : List (List Char)) (hdot : '.' ∉ name)
     (hext : ext ≠ []) : allowed compileName [(name, ds)] (name ++ ext) dest = false := by
   cases hb : allowed compileName [(name, ds)] (name ++ ext) dest with
   | false => rfl
@@ -366,7 +361,7 @@ theorem extended_source_gets_nothing_from (name ext dest : Deps.Str) (ds : List 
 /-- the deps.config of the working tree expands and closes without error (no define nested too deep,
     no loop), re-checked on every run -/
 theorem shipped_deps_config_closes :
-    ((Deps.processDefines Generated.Lint.depsDefines Generated.Lint.depsLines).bind Deps.processRules).isSome = true := by
+    ((Lint.Deps.processDefines Generated.Lint.depsDefines Generated.Lint.depsLines).bind Lint.Deps.processRules).isSome = true := by
   decide +kernel
 
 /-! ### exit status -/
